@@ -68,7 +68,7 @@ def plan(tier: str, seed: int) -> list[dict]:
     for i in range(1 if quick else 4):
         shards.append({"kind": "stencil", "mode": "boundscheck", "grids": 4 if quick else 10, "timeout": 1500 if quick else 4000})
     for i in range(6 if quick else 24):
-        shards.append({"kind": "refine", "mode": "jit", "cases": 10 if quick else 30, "timeout": 1500 if quick else 4000})
+        shards.append({"kind": "refine", "mode": "jit", "cases": 10 if quick else 30, "timeout": 1500 if quick else 4000, "known_finding_probe": i == 0})
     return shards
 
 
@@ -268,6 +268,9 @@ def run_refine_shard(spec, res: ShardResult, rng):
     for case_no in range(spec["cases"]):
         cls = str(rng.choice(["CartesianGrid", "PolarSymGrid", "SphericalSymGrid", "CylindricalSymGrid"], p=[0.25, 0.2, 0.3, 0.25]))
         hole = bool(rng.random() < 0.4) and cls != "CartesianGrid"
+        probe_f12 = case_no == 0 and spec.get("known_finding_probe")
+        if probe_f12:  # fixed witness of known finding F12 (reported on every run)
+            cls, hole = "SphericalSymGrid", False
         res.seen("grid_classes_seen", cls)
         if cls == "CartesianGrid":
             dim = int(rng.choice([1, 2, 3], p=[0.4, 0.4, 0.2]))
@@ -284,6 +287,9 @@ def run_refine_shard(spec, res: ShardResult, rng):
         name = str(rng.choice(names))
         info, optlist = operator_options(be, g0, name)
         opts = optlist[int(rng.integers(len(optlist)))]
+        if probe_f12:
+            name, opts = "tensor_double_divergence", {}
+            info, _ = operator_options(be, g0, name)
         try:
             if cls == "CartesianGrid":
                 fin, fout, descr = continuum.cartesian_case(rng, dim, name)
